@@ -138,14 +138,14 @@ Section CacheFacts.
   Lemma dep_par p v : In (p, Plain v) (m_par m) -> lookup p dependent = Some v.
   Proof.
     intro H. rewrite dep_frame; [apply dep0_par; exact H|].
-    apply in_plain_of in H. apply (in_map fst) in H. fold (keys (plain_of (m_par m))) in H.
+    apply in_plain_of in H. apply in_keys in H.
     intro Ho. names_contra m HWF p.
   Qed.
 
   Lemma dep_var x v : In (x, Plain v) (m_var m) -> lookup x dependent = Some v.
   Proof.
     intro H. rewrite dep_frame; [apply dep0_var; exact H|].
-    apply in_plain_of in H. apply (in_map fst) in H. fold (keys (plain_of (m_var m))) in H.
+    apply in_plain_of in H. apply in_keys in H.
     intro Ho. names_contra m HWF x.
   Qed.
 
@@ -273,10 +273,9 @@ Section CacheFacts.
 
   (** C13-b *)
   Lemma classification k :
-    In k (derived_parameter_names m (mkCache order (keys (m_var m)) d (plain_of (m_par m)) all_par [] [] init))
-    <-> In k (keys (m_der m)) /\ OnlyParams m k.
+    In k (filter (fun k => has k all_par) (keys (m_der m))) <-> In k (keys (m_der m)) /\ OnlyParams m k.
   Proof.
-    unfold derived_parameter_names. cbn [c_all_par]. rewrite filter_In. split.
+    rewrite filter_In. split.
     - intros [Hd Hh]. split; [exact Hd|].
       destruct (all_par_has k Hh) as [Hp|[Hs _]]; [names_contra m HWF k|].
       apply (split_allpar_OP m _ _ _ _ _ Hsplit).
@@ -291,6 +290,21 @@ Section CacheFacts.
       + exact Hop.
       + exact Hd.
       + rewrite <- Hord. apply order_in. rewrite keys_to_sort, !in_app_iff. right. right. left. exact Hd.
+  Qed.
+
+  (** C13-a *)
+  Lemma c13a_core :
+    lookup time_name dependent = Some 0%Z
+    /\ (forall p v, In (p, Plain v) (m_par m) -> lookup p dependent = Some v)
+    /\ (forall x v, In (x, Plain v) (m_var m) -> lookup x dependent = Some v)
+    /\ (forall nm cmp, In (nm, cmp) (to_sort m) -> comp_holds fsem fsemN nm cmp dependent)
+    /\ keys init = keys (m_var m)
+    /\ (forall x, In x (keys (m_var m)) -> lookup x init = lookup x dependent)
+    /\ (forall p f a', In (p, IA f a') (m_par m) -> lookup p all_par = lookup p dependent).
+  Proof.
+    split; [exact dep_time|]. split; [exact dep_par|]. split; [exact dep_var|]. split; [exact dep_holds|].
+    split; [exact init_keys|]. split; [exact init_lookup|].
+    intros p f a' H. apply frozen_all_par. left. eapply in_keys. exact H.
   Qed.
 
   (** ---- query time ---------------------------------------------------------------- *)
@@ -473,7 +487,32 @@ Section CacheFacts.
     intros k [Hk|Hk]; apply popped_lookup.
     - apply Hnd. exact Hk.
     - intro Hd. destruct (to_sort_outs m nm c k (containers_in_to_sort m nm c H) Hk) as [->|Hs].
-      + apply (in_map fst) in H. fold (keys (containers m)) in H. names_contra m HWF nm.
+      + apply in_keys in H. names_contra m HWF nm.
       + names_contra m HWF k.
+  Qed.
+
+  Lemma popped_frozen k : frozen k -> lookup k popped = lookup k all_par.
+  Proof.
+    intro Hf. rewrite popped_lookup; [apply e1_frozen; exact Hf|].
+    intro Hd. destruct Hf as [H|[_ H]]; names_contra m HWF k.
+  Qed.
+
+  (** C01-a *)
+  Lemma args_resolved_core :
+    lookup time_name popped = Some t
+    /\ (forall x v, lookup x vars = Some v -> lookup x popped = Some v)
+    /\ (forall p v, In (p, Plain v) (m_par m) -> lookup p popped = Some v)
+    /\ (forall nm c, In (nm, c) (containers m) -> comp_holds fsem fsemN nm c (env_of_dict (m_dat m) popped))
+    /\ (forall nm c, In (nm, c) (containers m) -> (forall x, In x (comp_args c) -> ~ In x (keys (m_dat m))) ->
+                     comp_holds fsem fsemN nm c popped).
+  Proof.
+    split; [|split; [|split; [|split]]].
+    - rewrite popped_lookup; [exact e1_time|]. intro H. names_contra m HWF time_name.
+    - intros x v H. rewrite popped_lookup; [apply e1_var; exact H|].
+      apply lookup_In_keys in H. apply Hvars in H. intro Hd. names_contra m HWF x.
+    - intros p v H. rewrite popped_lookup; [apply e1_par; exact H|].
+      apply in_keys in H. intro Hd. names_contra m HWF p.
+    - exact popped_holds_readd.
+    - exact popped_holds.
   Qed.
 End CacheFacts.
